@@ -59,10 +59,13 @@ StepF(e, w) ==
       [] e.op = "Drop"         -> DropF(w, a[1])
       [] e.op = "ChannelLength"-> RC(w, "ok", ChanLen(a[1], a[2]))
       [] e.op = "Observe"      -> R(w, "ok")
+         \* a conversion between two standalone buffers too large to log in full (a = <<channels, source frames,
+         \* destination frames, period of the source pattern>>); the recorder logs the outcome compressed (see ResOK)
+      [] e.op = "ConvertBig"   -> RV(w, "ok", IF a[2] < a[3] THEN a[2] ELSE a[3], e.vals)
 
 (* views an event operates on (for classification only) *)
 Operated(e) ==
-    CASE e.op \in {"Alloc", "ChannelLength", "Observe"} -> {}
+    CASE e.op \in {"Alloc", "ChannelLength", "Observe", "ConvertBig"} -> {}
       [] e.op \in {"Append", "Convert"} -> {e.args[1], e.args[2]}
       [] OTHER -> {e.args[1]}
 
@@ -80,6 +83,12 @@ ResOK(e, r) == /\ (r.res = e.res \/ (r.res = "havoc" /\ e.res = "ok"))
                /\ r.cnt = e.cnt /\ r.vals = e.vals
                \* WriteStriped must leave the caller's per-channel slices (elements of the caller's outer slice) alone
                /\ (e.op = "WriteStriped" => e.lens = [c \in 1..Len(e.in) |-> Len(e.in[c])])
+               \* ConvertBig: no converted position deviates from the result at the same phase of the source pattern, no
+               \* position beyond the common prefix lost its old value, the source is unchanged (first such positions,
+               \* -1 = none), and equal source samples gave equal results (position-wise function)
+               /\ (e.op = "ConvertBig" => /\ e.lens = <<-1, -1, -1>>
+                                           /\ Len(e.vals) = Len(e.in)
+                                           /\ \A i, j \in 1..Len(e.in) : e.in[i] = e.in[j] => e.vals[i] = e.vals[j])
 Class(e, w, r) ==
     IF e.pf # 0 THEN "proj"
     ELSE IF ~ResOK(e, r) THEN "res"
